@@ -346,12 +346,14 @@ static void do_api(op_t op) {
         m_mod_t *h = handle(s); take_snap(&sn);
         rc = m_mod_set_batch_size(h, BSZ[op.b]);
         if (!MD[s].present || ctx_hidden()) { REFUSED(rc, "m_mod_set_batch_size", "ST.refuse|batch"); break; }
+        if (tb_account(s, rc, &sn, "set_batch_size")) break;
         if (rc) vfail("BA.set", "BA.set", "m_mod_set_batch_size returned %d", rc);
         MD[s].batch_size = BSZ[op.b]; if (BSZ[op.b]) { MD[s].ever_batched = 1; MD[s].life |= 1; } if (MD[s].nmb) MD[s].ba_unsure = 1; break; }
     case O_BATCH_TMO: {
         m_mod_t *h = handle(s); take_snap(&sn);
         rc = m_mod_set_batch_timeout(h, TMO[op.b]);
         if (!MD[s].present || ctx_hidden()) { REFUSED(rc, "m_mod_set_batch_timeout", "ST.refuse|batch"); break; }
+        if (tb_account(s, rc, &sn, "set_batch_timeout")) break;
         if (rc) vfail("BA.set", "BA.set|timeout", "m_mod_set_batch_timeout(%lu) returned %d", (unsigned long)TMO[op.b], rc);
         MD[s].batch_tmo = op.b; mt_del(s, -1); MD[s].batch_fired = 0; MD[s].batch_due = 0; if (op.b) { MD[s].ever_batched = 1; MD[s].life |= 2; } if (MD[s].nmb) MD[s].ba_unsure = 1;
         if (op.b) mt_set(s, -1, TMO[op.b], 0, MD[s].st == S_RUNNING);
